@@ -34,7 +34,7 @@ PROPS = {
         outside="inputs longer than 13 bytes; symbolic wire types (one harness per concrete wire type); whole generated messages on arbitrary bytes; the recursion limit is established as one inductive step from an arbitrary budget (hook), the 100-deep input itself is not executed; allocation sizes are bounded through the length-prefix checks only",
     ),
     "C11": dict(
-        modules=["common", "protos", "ref_thrift", "l0", "l1", "skip", "c11", "insts_c11"],
+        modules=["common", "protos", "ref_thrift", "l0", "l1", "skip", "c11", "insts_c11", "linked", "insts_linked"],
         outside="value trees beyond the 21 shapes of harness/src/skip.rs (containers <= 2 elements, binaries <= 2 bytes); generated types; payloads at or above the 4 KiB zero-copy threshold; a transport that already holds a prefix (window not at the transport's first byte) - not part of the documented contract",
     ),
     "C12": dict(
